@@ -41,8 +41,8 @@ CLAIMS = {
  "C04": dict(design="§2 C04", technique="exhaustive field classification + SSA data-flow (transfer) matching Save<->Load + gob type walk + E-EFF purity",
    text="Structural half of resumability, for every save point: each GraphIterator/searchGraph field is classified (an unclassified field fails), every saved field flows iterator->record in Save and record->iterator in Load (graph restored field by field), cache fields are only ever nil after Load, every record field is exported and gob-encodable, Save writes nothing reachable from the iterator and the loaded iterator does not keep the reader. Does not decide equality of the resumed sequence.",
    note="encoding/gob round-trips exported fields; the scratch/cache classification table is trusted beyond its one-line reasons."),
- "C12": dict(design="§2 C12", technique="CFG path rules on go/ssa (no write before error return; cut-set of order-check edges) + E-PROVE lifted precondition at call sites + E-EFF purity / who-writes",
-   text="Decides: a rejected Add leaves the builder untouched (no receiver write on any path to an error return), the order check cannot be bypassed and admits neither duplicates nor smaller words (cut-set over bytes.Compare edge values), replaceOrRegister is never called on a childless node (precondition len(links)>=1 proved at all call sites), and queries never write the automaton. Does not decide accepted language, minimality or ranks.",
+ "C12": dict(design="§2 C12", technique="CFG path rules on go/ssa (no write before error return; cut-set of order-check edges) + E-PROVE lifted precondition at call sites + E-EFF purity / who-writes + typed SSA rule against rune-wise iteration (BYTEWISE)",
+   text="Decides: a rejected Add leaves the builder untouched (no receiver write on any path to an error return), the order check cannot be bypassed and admits neither duplicates nor smaller words (cut-set over bytes.Compare edge values), replaceOrRegister is never called on a childless node (precondition len(links)>=1 proved at all call sites), queries never write the automaton, and no function of the package walks a word rune-wise (range over a string, rune conversions), which would change labels >= 0x80. Does not decide accepted language, minimality or ranks.",
    note="bytes.Compare in {-1,0,1}; E-EFF may-write summaries; lazy Initialise is the one named exception."),
  "C13": dict(design="§2 C13", technique="E-EFF write summaries with module-restricted CHA for Searcher calls; per-instruction write attribution inside Search; CFG pairing rule for Step/Backstep passes against a tracking stack (BALANCE)",
    text="Decides the structural part of 'a search leaves the Dawg unchanged and only Step/Backstep change a searcher': Search writes nothing reachable from the Dawg; AllowStep/AllowWord/Chosen of both searchers write nothing reachable from the receiver (including through shared slices of value receivers); inside Search only invoke Step/Backstep write searcher memory; every searcher receives as many Backstep as Step calls on every path to a return (tracking-stack argument). Does not decide result set, order, ranks, or that one Backstep undoes one Step.",
